@@ -1,4 +1,5 @@
 import RV.Proofs.PolicyAdd
+import RV.Proofs.PolicyTerm
 /-!
 # C09 — Admission and eviction follow the TinyLFU / sampled-LFU discipline (policy level)
 
@@ -222,6 +223,38 @@ theorem c09_real_victims (p : Pol) (est : Hash → Int) (hest : EstOK est) (enum
         (by intro x hx; simp at hx) hadm
       exact ⟨h.cost_eq, h.nodup, h.resident, h.used_eq, hph⟩
 
+/-- **Termination**: with admissible enumerations the eviction loop needs at most
+`6 · |keyCosts|` rounds (a real eviction removes a key; a phantom eviction removes a stale
+sample entry and the refill only appends live ones; with nothing accounted the newcomer
+fits), so the model is never `stuck` when that many enumerations are supplied — the real
+`Add` always returns.  (The swap-remove matters: overwriting slot 0 instead of the victim's
+slot makes the real loop spin forever, see the mutation log.) -/
+theorem c09_add_terminates (p : Pol) (est : Hash → Int) (hest : EstOK est) (enums : List (List KC))
+    (key : Hash) (cost : Int) (hwf : p.wf) (hno : p.NoOvf cost)
+    (hadm : (p.addFull est enums key cost).Admissible)
+    (hn : 6 * p.keyCosts.length ≤ enums.length) :
+    (p.addFull est enums key cost).status = .ok := by
+  have hr := Pol.ranges hwf hno
+  by_cases hbig : p.maxCost < cost
+  · rw [addFull_tooBig est enums key hr.2.2.1 hr.2.1 hbig]
+  · cases hl : lookup p.keyCosts key with
+    | some prev => rw [addFull_existing est enums key hr.2.2.1 hr.2.1 hbig hl]
+    | none =>
+      by_cases hroom : 0 ≤ p.maxCost - (p.used + cost)
+      · rw [addFull_fits est enums key hwf hno hbig hl hroom]
+      · have he := addFull_loop est enums key hwf hno hbig hl (by omega)
+        have hk := hest key
+        unfold AddOut.Admissible at hadm
+        rw [he] at hadm ⊢
+        have h1 := (loop_real hest key cost (by unfold IncOK; omega) enums p [] hwf hno (by simp)
+          (by intro x hx; simp at hx) hadm).no_panic
+        have h2 := loop_not_stuck hest key cost (by unfold IncOK; omega) enums p [] hwf hno (by omega)
+          (by simp) hadm (by simp [loopMeasure, stale]; omega)
+        cases hs : (evictLoop est key cost (est key) enums p []).status with
+        | ok => rfl
+        | stuck => exact absurd hs h2
+        | panic => exact absurd hs h1
+
 /-! ### non-vacuity: a concrete `Add` with four rounds, a duplicate in the sample and a phantom victim
 
 MaxCost 10, resident `{1:3, 2:3, 3:3}`, estimates `1↦1, 2↦2, 3↦3`, newcomer `9` with cost 9 and
@@ -257,6 +290,15 @@ is impossible here, but a direct one is: -/
 example : (exPol.addFull (fun k => if k = 9#64 then 0 else 1) [[(1#64, 3), (2#64, 3), (3#64, 3)]] 9#64 9).admitted = false ∧
     (exPol.addFull (fun k => if k = 9#64 then 0 else 1) [[(1#64, 3), (2#64, 3), (3#64, 3)]] 9#64 9).victims = [] ∧
     (exPol.addFull (fun k => if k = 9#64 then 0 else 1) [[(1#64, 3), (2#64, 3), (3#64, 3)]] 9#64 9).rounds.map (·.rejected) = [true] := by
+  decide
+
+/-- `c09_add_terminates`: the hypotheses are satisfiable (6 enumerations for 1 resident key) and
+the loop really runs -/
+example :
+    let p : Pol := { keyCosts := [(1#64, 4)], used := 4, maxCost := 5 }
+    let enums : List (List KC) := List.replicate 6 [(1#64, 4)]
+    p.wf ∧ p.NoOvf 3 ∧ (p.addFull exEst enums 2#64 3).Admissible ∧ 6 * p.keyCosts.length ≤ enums.length ∧
+      (p.addFull exEst enums 2#64 3).victims = [(1#64, 4)] ∧ (p.addFull exEst enums 2#64 3).admitted = true := by
   decide
 
 /-- fits: admitted with no victims -/
